@@ -743,6 +743,16 @@ def run_curve(desc, ctx):
         ok, val = ctx.call("curve.as_polyline:custom_pos", cv.as_polyline, m, custom_pos=badpos, expect=(Exception,), monitor="reject")
         ctx.check(not ok, "reject", "curve_custom_pos", "out_of_range_parameter_accepted:custom_position",
                   "as_polyline accepted a custom position outside [0,1]", positions=badpos)
+        if desc["seed"] % 4 == 0:
+            ok, pl = ctx.call("curve.as_polyline:default_n", cv.as_polyline, monitor="export", abort=False)
+            if ok:
+                ctx.obs("export", "as_polyline:default_n")
+                try:
+                    cnt = (len(pl.vertices), len(pl.edges))
+                except Exception:
+                    cnt = None
+                ctx.check(cnt == (100, 99), "export", "as_polyline", "default_sample_count_is_not_the_documented_100",
+                          "as_polyline() without a count does not give the documented 100 samples", got=cnt)
         if desc.get("long_custom"):
             mm = 130
             posl = [i / (mm - 1) for i in range(mm)]
@@ -903,6 +913,16 @@ def run_patch(desc, ctx):
     if dim == 3:
         for (n1, n2) in pairs:
             exported = _check_surface_export(ctx, bp, Nf, M, n1, n2, convs)
+    if dim == 3 and desc["seed"] % 4 == 0 and max(m, n) <= 3:
+        ok, sm = ctx.call("patch.as_surface:default_n", bp.as_surface, monitor="export", abort=False)
+        if ok:
+            ctx.obs("export", "as_surface:default_n")
+            try:
+                cnt = len(sm.vertices)
+            except Exception:
+                cnt = None
+            ctx.check(cnt == 400, "export", "as_surface", "default_resolution_is_not_the_documented_20x20",
+                      "as_surface() without resolutions does not give the documented 20 x 20 samples", got=cnt)
     if dim == 3 and convs:
         ctx.cls("patch:history:results_modified_in_place")
         _modify_results_in_place(ctx, lambda: bp.as_surface(rng.randint(2, 4), rng.randint(2, 4)),
